@@ -71,16 +71,26 @@ fn judge_exact<E: Exact>(st: &mut Stats, rng: &mut Rng, du: usize, dv: usize, rv
 
 fn judge_f64(st: &mut Stats, rng: &mut Rng, du: usize, dv: usize, kind: u64) {
     st.next_case();
-    let gen = |rng: &mut Rng| -> f64 { match kind { 0 => rng.int(-9, 9) as f64, 1 => rng.sym(), _ => rng.sym() * rng.logpos(1e-3, 1e3) } };
+    let gen = |rng: &mut Rng| -> f64 { match kind { 0 => rng.int(-9, 9) as f64, 1 => rng.sym(), 3 => if rng.bool() { rng.int(1, 60) as f64 } else { 1.0 / rng.int(3, 60) as f64 }, _ => rng.sym() * rng.logpos(1e-3, 1e3) } };
     let mut u: Vec<f64> = (0..=du).map(|_| if rng.chance(0.1) { 0.0 } else { gen(rng) }).collect();
-    let mut v: Vec<f64> = (0..=dv).map(|_| if rng.chance(0.1) { 0.0 } else { gen(rng) }).collect();
+    let mut v: Vec<f64> = (0..=dv).map(|_| if rng.chance(if kind == 3 { 0.4 } else { 0.1 }) { 0.0 } else { gen(rng) }).collect();
+    if kind == 3 && du >= dv {
+        // constructed dividend u = fl(q*v) + r with gappy general-float q and v: the division retraces products it can
+        // reproduce exactly, so interior coefficients of the running remainder cancel to exact zeros while the leading
+        // quotients are inexact (rounding residues at the top) - coincidences that random dividends never produce
+        if v[dv] == 0.0 { v[dv] = gen(rng); if v[dv] == 0.0 { v[dv] = 0.75; } }
+        let q: Vec<f64> = (0..=du - dv).map(|i| if i < du - dv && rng.chance(0.4) { 0.0 } else { let x = gen(rng); if x == 0.0 { 1.25 } else { x } }).collect();
+        for x in u.iter_mut() { *x = 0.0; }
+        for i in 0..q.len() { for j in 0..v.len() { u[i + j] += q[i] * v[j]; } }
+        for i in 0..dv { if rng.chance(0.5) { u[i] += gen(rng); } }
+    }
     // a dividend may carry stored leading zeros (only the divisor's leading coefficient must be non-zero)
     if u[du] == 0.0 && !rng.chance(0.5) { u[du] = 1.5; }
     // integer class: divisor leading coefficient +-1 or +-2^k so that the exact quotient is representable
     v[dv] = if kind == 0 { *rng.pick(&[1.0, -1.0, 2.0, -0.5]) } else if v[dv] == 0.0 { 0.75 } else { v[dv] };
     // uniform rescaling of both polynomials by 2^e (exact; ratios unchanged): "for every float input"
     if rng.chance(0.3) { let (eu, ev) = (rng.int(-80, 80) as i32, rng.int(-80, 80) as i32); for x in u.iter_mut() { *x *= 2f64.powi(eu); } for x in v.iter_mut() { *x *= 2f64.powi(ev); } }
-    let desc = || format!("T=f64 kind={} u={:?} v={:?}", ["integer", "general", "graded"][kind as usize], u, v);
+    let desc = || format!("T=f64 kind={} u={:?} v={:?}", ["integer", "general", "graded", "constructed"][kind as usize], u, v);
     let (pu, pv) = (Polynomial::new(u.clone()), Polynomial::new(v.clone()));
     let budget = 4 * (du + 2);
     let (out, steps) = guarded::<f64, _>(budget, || pu.polydiv(&pv));
@@ -105,10 +115,26 @@ fn judge_f64(st: &mut Stats, rng: &mut Rng, du: usize, dv: usize, kind: u64) {
             if !finite || !(err <= tol) { st.violation("C12:polydiv:f64:identity", format!("q={:?} r={:?}: |u-(q*v+r)| = {:e} > {:e}; {}", qc, rc, err, tol, desc())); }
             let dr = degree_of(&rc, 0.0);
             if !(match dr { None => true, Some(d) => d < dv }) { st.violation("C12:polydiv:f64:remainder-degree", format!("q={:?} r={:?}: deg r = {:?} >= deg v = {}; {}", qc, rc, dr, dv, desc())); }
+            // units must not matter: u*2^a, v*2^b (exact) must give q*2^(a-b), r*2^a bit for bit, up to +-600 binades
+            if rng.chance(0.3) {
+                let (ea, eb) = (rng.int(-600, 600) as i32, rng.int(-300, 300) as i32);
+                let in_range = |x: f64, e: i32| x == 0.0 || { let m = x.abs().log2() + e as f64; m > -900.0 && m < 900.0 };
+                if u.iter().chain(&rc).all(|x| in_range(*x, ea)) && v.iter().all(|x| in_range(*x, eb)) && qc.iter().all(|x| in_range(*x, ea - eb) && in_range(*x, 0)) && u.iter().chain(&v).all(|x| in_range(*x, 0)) {
+                    let sc = |c: &[f64], e: i32| -> Vec<f64> { c.iter().map(|x| x * 2f64.powi(e / 2) * 2f64.powi(e - e / 2)).collect() };
+                    let (out2, _) = guarded::<f64, _>(budget, || Polynomial::new(sc(&u, ea)).polydiv(&Polynomial::new(sc(&v, eb))));
+                    st.eval();
+                    let same = |a: &[f64], b: &[f64]| a.len() == b.len() && a.iter().zip(b).all(|(x, y)| x.to_bits() == y.to_bits() || (*x == 0.0 && *y == 0.0));
+                    match out2 {
+                        Outcome::Ok(Ok((q2, r2))) => if !same(&coeffs(&q2), &sc(&qc, ea - eb)) || !same(&coeffs(&r2), &sc(&rc, ea)) { st.violation("C12:polydiv:f64:scale-dependent", format!("u*2^{} / v*2^{} gives q={:?} r={:?}, expected the scaled q={:?} r={:?}; {}", ea, eb, coeffs(&q2), coeffs(&r2), sc(&qc, ea - eb), sc(&rc, ea), desc())); },
+                        o => st.violation("C12:polydiv:f64:scale-dependent", format!("u*2^{} / v*2^{}: {}; unscaled division succeeded; {}", ea, eb, match o { Outcome::Ok(Err(e)) => format!("Err({:?})", e), oo => oo.describe() }, desc())),
+                    }
+                    st.count("f64:scaling-checks");
+                }
+            }
         }
         Outcome::Overflow => {}
     }
-    st.count(&format!("cases:f64:{}", ["integer", "general", "graded"][kind as usize]));
+    st.count(&format!("cases:f64:{}", ["integer", "general", "graded", "constructed"][kind as usize]));
     let mut h = hash_str("f64"); for x in u.iter().chain(&v) { h = hmix(h, x.to_bits()); }
     st.nontrivial(h);
 }
@@ -143,6 +169,33 @@ fn judge_cmplx(st: &mut Stats, rng: &mut Rng, du: usize, dv: usize) {
             if !(err <= tol) { st.violation("C12:polydiv:Cmplx:identity", format!("q={:?} r={:?}: |u-(q*v+r)| = {:e} > {:e}; {}", qc, rc, err, tol, desc())); }
             let dr = degree_of(&rc, Cmplx::new(0.0, 0.0));
             if !(match dr { None => true, Some(d) => d < dv }) { st.violation("C12:polydiv:Cmplx:remainder-degree", format!("q={:?} r={:?}: deg r = {:?} >= deg v = {}; {}", qc, rc, dr, dv, desc())); }
+            // units must not matter (complex division by the scaled leading coefficient included)
+            if rng.chance(0.3) {
+                let (ea, eb) = (rng.int(-600, 600) as i32, rng.int(-200, 200) as i32);
+                let in_range = |x: f64, e: i32| x == 0.0 || { let m = x.abs().log2() + e as f64; m > -900.0 && m < 900.0 };
+                let parts = |c: &[Cmplx]| -> Vec<f64> { c.iter().flat_map(|z| [z.real, z.imag]).collect() };
+                if parts(&u).iter().chain(&parts(&rc)).all(|x| in_range(*x, ea) && in_range(*x, 0)) && parts(&v).iter().all(|x| in_range(*x, eb) && in_range(*x, 0)) && parts(&qc).iter().all(|x| in_range(*x, ea - eb) && in_range(*x, 0)) {
+                    let sc = |c: &[Cmplx], e: i32| -> Vec<Cmplx> { c.iter().map(|z| Cmplx::new(z.real * 2f64.powi(e / 2) * 2f64.powi(e - e / 2), z.imag * 2f64.powi(e / 2) * 2f64.powi(e - e / 2))).collect() };
+                    let (out2, _) = guarded::<Cmplx, _>(budget, || Polynomial::new(sc(&u, ea)).polydiv(&Polynomial::new(sc(&v, eb))));
+                    st.eval();
+                    match out2 {
+                        Outcome::Ok(Ok((q2, r2))) => {
+                            // complex division is not bit-invariant under scaling in general (the library may form c^2+d^2): judged by the identity at the scaled level
+                            let (q2c, r2c) = (coeffs(&q2), coeffs(&r2));
+                            let (us, vs) = (sc(&u, ea), sc(&v, eb));
+                            let len = (q2c.len() + vs.len()).max(r2c.len()).max(us.len()) + 1;
+                            let down = |z: Cmplx, e: i32| fl::CDD::from(Cmplx::new(z.real * 2f64.powi(-(e / 2)) * 2f64.powi(-(e - e / 2)), z.imag * 2f64.powi(-(e / 2)) * 2f64.powi(-(e - e / 2))));
+                            let mut w = vec![fl::CDD::ZERO; len];
+                            for i in 0..q2c.len() { for j in 0..v.len() { w[i + j] = w[i + j] + down(q2c[i], ea - eb) * fl::CDD::from(v[j]); } }
+                            for i in 0..r2c.len() { w[i] = w[i] + down(r2c[i], ea); }
+                            let err = (0..len).map(|i| (w[i] - if i < u.len() { fl::CDD::from(u[i]) } else { fl::CDD::ZERO }).abs()).fold(0.0f64, f64::max);
+                            if !(err <= 4.0 * tol) || q2c.len() != qc.len() { st.violation("C12:polydiv:Cmplx:scale-dependent", format!("u*2^{} / v*2^{} gives q={:?} r={:?}: |u-(q*v+r)| = {:e} (rescaled) > {:e}; unscaled q={:?} r={:?}; {}", ea, eb, q2c, r2c, err, 4.0 * tol, qc, rc, desc())); }
+                        }
+                        o => st.violation("C12:polydiv:Cmplx:scale-dependent", format!("u*2^{} / v*2^{}: {}; unscaled division succeeded; {}", ea, eb, match o { Outcome::Ok(Err(e)) => format!("Err({:?})", e), oo => oo.describe() }, desc())),
+                    }
+                    st.count("Cmplx:scaling-checks");
+                }
+            }
         }
         Outcome::Overflow => {}
     }
@@ -189,13 +242,13 @@ pub fn run(ctx: &Ctx) -> Report {
         for k in 0..reps {
             judge_exact::<Rat>(st, rng, du, dv, &|r| if r.chance(0.2) { Rat::new(r.int(-9, 9) as i128, r.int(1, 5) as i128) } else { Rat::int(r.int(-9, 9)) }, k % 3 == 0);
             judge_exact::<CRat>(st, rng, du, dv, &|r| CRat::new(Rat::int(r.int(-5, 5)), Rat::int(r.int(-5, 5))), k % 3 == 1);
-            judge_f64(st, rng, du, dv, k % 3);
+            judge_f64(st, rng, du, dv, k % 4);
             judge_cmplx(st, rng, du, dv);
             if k % 4 == 0 { judge_zero_divisor(st, rng); }
         }
     });
     let mut rep = Report::new(stats,
-        "all 77 degree pairs (deg u 0..10, deg v 0..6, incl. constants and divisors longer than the dividend) x random coefficients over Rat (fractions), CRat, integer-valued f64 (divisor leading coefficient +-1, 2, -1/2: exact), general f64, f64 with coefficient ratios up to 1e6, Complex<f64>; zeros inside, exact divisions (u=a*v) planted in 20% of exact cases; empty and all-zero divisors (+-0.0) of length 0..6. Judged: Ok, u==q*v+r (exact / 64(deg u+1)u relative in double-double), r=0 or deg r<deg v, no panic, loop passes <= 4(deg u+2) (hook H4, logical steps). Every case non-trivial; distinct = distinct (type,u,v) hashes");
+        "all 77 degree pairs (deg u 0..10, deg v 0..6, incl. constants and divisors longer than the dividend) x random coefficients over Rat (fractions), CRat, integer-valued f64 (divisor leading coefficient +-1, 2, -1/2: exact), general f64, f64 with coefficient ratios up to 1e6, constructed dividends u=fl(q*v)+r with gappy q and v (exact interior cancellations next to inexact leading quotients), Complex<f64>; power-of-two rescaling of u and v by up to 2^+-600 (f64: quotient and remainder bit-identical up to the scaling; Complex<f64>: the identity at the rescaled level); zeros inside, exact divisions (u=a*v) planted in 20% of exact cases; empty and all-zero divisors (+-0.0) of length 0..6. Judged: Ok, u==q*v+r (exact / 64(deg u+1)u relative in double-double), r=0 or deg r<deg v, no panic, loop passes <= 4(deg u+2) (hook H4, logical steps). Every case non-trivial; distinct = distinct (type,u,v) hashes");
     rep.assumptions = vec!["divisors with a zero leading coefficient that are not identically zero are not generated (the property does not constrain them)".into(), "spin detection is decided on the loop counter delivered by hook H4, never on wall-clock".into()];
     rep.min_nontrivial = 2000;
     if !hook_live { rep.inconclusive.push("hook-H4-polydiv-step-silent".into()); }
